@@ -52,6 +52,9 @@ func installHook() {
 }
 
 //go:norace
+func lockWaits() uint64 { return sLockWaits }
+
+//go:norace
 func schedStats() (steps, switches, inflight, hash, gc, delivered uint64, rec []SwRec, trunc bool, stall uint64) {
 	rec = make([]SwRec, sRecN)
 	copy(rec, sRec[:sRecN])
@@ -84,6 +87,7 @@ func sigOf(s *RunSpec, rec []SwRec) uint64 {
 	}
 	for _, r := range rec {
 		mix(uint64(r.T)<<40 | uint64(r.To)<<32 | uint64(r.At))
+		mix(uint64(r.Op))
 	}
 	return h
 }
@@ -162,6 +166,7 @@ func executeRun(s *RunSpec, runIdx int, racePath string) (doneEv, *violEv) {
 	d.Shared += sharedMsgs
 	d.Faults["preempt_in_op"] = int(inflight)
 	d.Faults["gc"] = int(gcFired)
+	d.Faults["lock_wait"] = int(lockWaits())
 	d.Faults["stall"] = int(stall)
 	d.Faults["delivered"] = int(delivered)
 	d.Faults["dup_planned"] = s.Plan.Dup
